@@ -321,7 +321,7 @@ class Characteristic:
         try:
             self.value = self.to_valid_value(self._value)
             self.valid_value_or_raise(self._value)
-        except ValueError:
+        except (ValueError, OverflowError):
             self.value = self._get_default_value()
 
     def _clear_cache(self) -> None:
